@@ -417,6 +417,9 @@ func (g *bGen) deviate(c *bCase) {
 		name string
 		fn   func() bool
 	}
+	if len(c.Env.Orders) == 0 || len(c.Env.Accounts) == 0 || len(c.Msg.Markets) == 0 {
+		return
+	}
 	pickOrder := func() *bOurs { return &c.Env.Orders[rng.Intn(len(c.Env.Orders))] }
 	pickMatched := func() (*bMarket, *bMatched) {
 		var cands [][2]int
@@ -631,6 +634,11 @@ func (g *bGen) deviate(c *bCase) {
 			o := pickOrder()
 			if o.IsAsk {
 				return false
+			}
+			if rng.Intn(2) == 0 {
+				// a ticket the recipient has not registered yet
+				o.Sidecar = 1
+				return true
 			}
 			switch o.Sidecar {
 			case 0:
